@@ -19,6 +19,9 @@ FAULT = {"lex": "def q := 1 ! 2\n", "syntax": "def := 1\n", "type": "def q: Int 
 ARROW = re.compile(r"──→ ([^\s:]+)")
 
 
+STALE = "# stale output of an earlier run\n" + "stale_line = 0\n" * 400
+
+
 def source(i, f, files):
     """file with path index i (1-based index into PATHS)"""
     n = i
@@ -52,13 +55,18 @@ def observe(vh, cases, annotate):
         free = [i for i in range(1, len(PATHS) + 1) if i not in used]
         extra = {"path": "x/fresh.mamba", "src": "class Fresh9\n    def m(self) -> Int => 9\ndef fresh9() -> Int => 9\n"} if True else None
         perms = [[q - 1 for q in p] for p in c["perms"]]
-        recs.append({"id": c["id"], "files": files, "perms": perms, "extra": extra, "annotate": annotate})
+        rec = {"id": c["id"], "files": files, "perms": perms, "extra": extra, "annotate": annotate}
+        if c["id"] % 2 == 1:
+            # an already populated output directory: every target file exists with LONGER stale content
+            rec["pre"] = [{"path": f["path"].replace(".mamba", ".py"), "src": STALE} for f in files]
+        recs.append(rec)
     results, dead = vlib.run_vh_isolated(vh, ["project"], recs, chunk=300, timeout=300)
     obs = []
     for c in cases:
         o = results.get(c["id"])
         if o is None:
-            obs.append({"id": c["id"], "files": c["files"], "panic": True, "run1": {}, "run2": {}, "perms": [], "extra": {}, "has_extra": False, "written_expected": []})
+            obs.append({"id": c["id"], "files": c["files"], "panic": True, "run1": {}, "run2": {}, "perms": [], "extra": {}, "has_extra": False, "written_expected": [],
+                        "pre": False, "stale_sha": ""})
             continue
         n = len(c["files"])
         def run_rec(r):
@@ -83,7 +91,8 @@ def observe(vh, cases, annotate):
             written = [sha(bypath[p]) for p in sorted(bypath)]
         panic = any(r.get("panic") for r in o["runs"]) or any(p.get("panic") for p in o["perms"])
         obs.append({"id": c["id"], "files": c["files"], "panic": bool(panic), "run1": run_rec(o["runs"][0]), "run2": run_rec(o["runs"][1]),
-                    "perms": perms, "extra": extra, "has_extra": True, "written_expected": written})
+                    "perms": perms, "extra": extra, "has_extra": True, "written_expected": written,
+                    "pre": c["id"] % 2 == 1, "stale_sha": sha(STALE)})
     return obs, results
 
 
